@@ -167,6 +167,60 @@ CLAIMED = {
         note="Known finding: Linter.render_string swallows the character-limit skip (two keys, one root cause). " + TRUST,
         design_ref="DESIGN.md §3 C34",
     ),
+    "C04": dict(
+        technique="static analysis: may-raise fixpoint for the repository's error types over a supplemented call graph (decorator wrappers cloned per function, property getters, closures, deferred partials, class aliases, Matchable protocol) with handler classification (convert / translate / verdict / log-only); CFG dominance of fix sinks and limit comparisons; cycle detection on the matching call graph minus calls inside `with deeper_match`; closed reviewed table of unhandled builtin raises",
+        text="Decides the error discipline of the lint path: every raise of SQLParseError/SQLLexError/SQLTemplaterError/SQLFluffSkipFile under src/sqlfluff that can reach a public Linter method, an api.simple function or a CLI command is absorbed on every call chain by a handler that puts it into the returned violations list (or translates it, or is a reviewed verdict), log-only catch-alls counting as degraded; every LintedFile.fix_string() call is dominated by a test implying a tree; the depth and node-budget comparisons dominate the work they guard and raise a handled type, the token count is charged to the budget before matching, and every recursion cycle of the matching code passes through deeper_match; the explicit raises of builtin exception types that reach an entry point unhandled equal a reviewed table of 36 (26 invariants, 6 invalid-config paths, 4 API misuse).",
+        note="Does not decide absence of RecursionError/IndexError/AssertionError for arbitrary inputs, asserts, third-party exceptions, or plugin (dbt/sqlmesh) chains (printed as notes: 1 today, no runnable witness in this sandbox). Known finding: Linter.render_string swallows the character-limit skip, so api.parse / `render -` fail on an assertion / IndexError for a skipped string. Six table entries of class 'config' are tracebacks for invalid configuration today. " + TRUST,
+        design_ref="DESIGN.md §3 C04",
+    ),
+    "C06": dict(
+        technique="static analysis: FIRST/EPS fixpoint over the expanded grammar graph of every dialect compared with the declared simple() hints; component-wise def-use of the parse-cache key (through locals, tuple displays, helpers) tied to the receiver/arguments of the cached match; CFG guard check of the per-grammar hint cache; symbolic path walk of prune_options; shared-state inventory and who-may-write rule for matcher objects",
+        text="Decides the structural half of optimisation-independence. Cache: the match cache is a fresh dict per ParseContext, touched only by its two methods, a context is built per parse and never stored, and the key at both use sites contains position and a discriminator of segments[idx], len(segments) and the cache_key() of the very matcher whose match is stored; matcher keys are fresh-unique slots or cover the fields match reads. Hints: for all 127k reachable grammar nodes of the 28 bundled dialects FIRST(node) is contained in simple(node) and nodes that can match with metas only have no hint; the per-grammar hint cache is only read under uuid equality with a per-instance uuid; prune_options drops an option only after hint-not-None, raw test and type test all failed; next_match tries candidates in matcher order. History: no mutated process-lifetime container in core/parser outside a reviewed table, no write to grammar/parser/segment-class objects outside construction, no memoiser in the matching modules.",
+        note="Does not decide that a cached match equals a fresh one under a different terminator stack (key omits terminators, no witness), the unparsable claims of greedy parse modes under pruning, positions starting on non-code tokens with allow_gaps=False, hash-order independence beyond next_match, or that BaseGrammar.copy() re-keys (no two different options share a key in any bundled dialect today). Hints are the values of the declared simple() methods obtained by importing the dialect modules in a subprocess; no SQL is lexed or parsed. " + TRUST,
+        design_ref="DESIGN.md §3 C06",
+    ),
+    "C08": dict(
+        technique="static analysis: keyword-table agreement of every Jinja environment construction with the 'no markup' fast-path test (regex AST, finite language covers the default openers), def-use chain process -> slice_file -> analyzer -> tracer -> trace() for the rendered text, config-read closure vs. fast-path guard",
+        text="Decides that every Jinja environment built in core and plugins keeps default delimiters / no line statements / keep_trailing_newline=True, that the early identity return of JinjaTemplater.process excludes every file containing '{{', '{%' or '{#' and every configured macro/library loader, and that TemplatedFile.templated_str is render_func(raw_str) of the unmodified source (never the instrumented trace template) for jinja and dbt.",
+        note="Does not decide Jinja's determinism, context equality with an external render, unreached-code variants, or dbt's own environment. Assumes newline-normalised input (C11 R11c). " + TRUST,
+        design_ref="DESIGN.md §3 C08",
+    ),
+    "C09": dict(
+        technique="static analysis: regex AST of the dotted-name rewrite (brace-exclusion of field atoms, escaped-pair handling, lazy spec), def-use of the render closure and context, regex-AST well-formedness of the placeholder style table, abstract match-position evaluation of PlaceholderTemplater.process",
+        text="Decides that the python templater's dotted-name rewrite cannot swallow or mis-read escaped braces, that rendering is str.format/format_map of the rewritten unmodified source with the live context (fallback only under ignore=templating), that KNOWN_STYLES is well formed, and that the placeholder templater copies source[PREV:START] + the context value/name of the matched (or numbered) parameter + the tail, with slice records using the same bounds.",
+        note="Does not decide equality with str.format for every string (!conv, attribute/index fields), templated offsets, or style coverage. Fixed: R09a fired three times on the original rewrite regex (fadf47b). " + TRUST,
+        design_ref="DESIGN.md §3 C09",
+    ),
+    "C21": dict(
+        technique="static analysis: element-provenance of the crawl receiver (def-use through wrappers, filters and helper returns), dominance of tree rebinding / apply_fixes by the fix flag, who-may-write table over segment fields and in-place mutators derived from the segment classes, def-use shape of RuleSet.get_rulepack / _expand_rule_refs, closed tables of rule-instance state and RS-state over rule code",
+        text="Decides independence in lint mode by construction: only members of rule_pack.rules are crawled and only their results (plus noqa parse errors) are returned, each attributed to the running rule; every rule is handed the tree that was passed in unless fix is set; segment fields are written only in core/parser/segments and at reviewed clone/fix sites; rule objects, rule classes and rule helper modules keep no state between evaluations beyond reviewed memo/scratch rows. Decides the structural half of selection: instantiated codes = register codes in expand(allow-list) and not in expand(deny-list), one expander over one reference map that is also the pack's noqa map, keys wired to rules/exclude_rules.",
+        note="Does not decide the run-time set arithmetic of glob/alias/group expansion, re-parenting of children when a rule builds a new parent segment, or anything in fix mode. Receiver classification is syntactic. " + TRUST,
+        design_ref="DESIGN.md §3 C21",
+    ),
+    "C23": dict(
+        technique="static analysis: coordinate-space kind inference (source vs rendered offsets/slices/texts, line vs column; context-sensitive abstract interpretation seeded from the declared slice fields) over the eight position-handling modules, plus def-use wiring of SQLBaseError / PositionMarker / source_position_dict_from_slice / LintFix.to_dict and word-class pairing of the annotation writers' keys",
+        text="Decides that no position computation in markers, templaters/base, errors, rules/fix, linter/patch, linted_file, lexer and segments/meta uses a rendered-space value where a source-space one is required (text subscripts, the offset->line/column converter, newline tables, every kinded constructor field, comparisons/arithmetic; SRC-TPL only in the two reviewed translation functions), that a violation's line/column are components 0/1 of the marker's source_position() which converts the START of its SOURCE slice with source=True, that serialised offsets and line/column come from the same end of the same slice through one converter call, that fix/violation serialisation moves line, column and offset together and from the stored segment's marker, and that SARIF/GitHub writers feed line keys from *_line_no and column keys from *_line_pos.",
+        note="Does not decide that a rule anchors the offending code, that source slices of templated segments are tight, the converter arithmetic (C31), or errors built without a marker (file-level templater failures carry explicit/default coordinates). Values joined from both spaces, untyped receivers and lengths are 'undetermined' and never alarm (counted; decided-site floors). " + TRUST,
+        design_ref="DESIGN.md §3 C23",
+    ),
+    "C28": dict(
+        technique="static analysis: def-use of every as_record/to_tuple request in the tree, must-guard of the record merge by the key-uniqueness test, structure of the serialisers' child visits (iterated collection, filters, option pass-through, leaf text), override table over the segment class hierarchy",
+        text="Decides wiring facts of the parse output: every serialisation request (parse command, api.simple.parse) passes show_raw=True and never forces code_only/include_meta; as_record forwards its options unchanged; structural_simplify merges child records only under a dominating test that all children's keys are distinct, else keeps the ordered list; to_tuple/stringify visit self.segments itself in order with options passed through, filter only meta segments when code_only is off, and emit self.raw unmodified at leaves; only meta classes override a serialiser.",
+        note="Minimal claim: not a proof that the listed texts concatenate to the rendered SQL. Known finding: the human format lists an unparsable section's comments before its other tokens (UnparsableSegment.comment_separate). " + TRUST,
+        design_ref="DESIGN.md §3 C28",
+    ),
+    "C31": dict(
+        technique="static analysis: kind of the stored newline tables (RQ-space), polarity of the source flag at every table read (CFG conditions), whole-tree single-writer scan by receiver class, def-use cones of the converter's and infer_next_position's result components, newline-literal agreement",
+        text="Decides the pairing and ownership facts of the conversion: the source table is built from the source text and the rendered one from the rendered text by the same finder; get_line_pos_of_char_pos consults the source table iff `source`; the tables and texts are stored only in TemplatedFile.__init__, text before table and never after, with no in-place mutation anywhere; the bisected table is the one subtracted for the column and both use the offset parameter; every newline-sensitive string operation uses the single literal newline (no splitlines); infer_next_position keeps line and column derivations apart.",
+        note="Weakest level: the integer arithmetic (bisect_left vs bisect_right, the +1s, the nl_idx-1 index, the column after a newline) is NOT decided — within this family it would be a frozen-fragment match. " + TRUST,
+        design_ref="DESIGN.md §3 C31",
+    ),
+    "C32": dict(
+        technique="static analysis: flag-aware call-graph reachability (constant propagation of boolean arguments/defaults, edges cut by dominating tests) from the lint/parse/render entry points to every write-capable function; RS-state inventory (sa/state.py) of module-/class-level objects, global rebindings, external module state and process caches with scope-resolved mutation sites; parameter-rooted mutation table for core/linter, core/rules, core/config",
+        text="Decides that no file-writing function other than the writers of a user-named output artefact is reachable from lint, parse and render under the flags they pass (persist_tree is cut by apply_fixes=False); that the set of process-lifetime mutable state equals the reviewed table (15 cells, 25 sites, 4 caches; 110 other shared containers are constant tables) and every site is in a reviewed writer; that functions on the lint path mutate caller-owned arguments only at reviewed (function, access path, operation) rows.",
+        note="Does not decide bit-identical violations across arbitrary histories; BlockTracker's class-level stack/map is reviewed-harmless (stale entries are never read; no witness of a changed result in 16 Jinja shapes) but leaks entries for call blocks. Writes by libraries outside the tree, lambda bodies and property bodies are not followed. " + TRUST,
+        design_ref="DESIGN.md §3 C32",
+    ),
 }
 
 NOT_APPLICABLE = {
